@@ -2,7 +2,7 @@
 every machine state - speculative or committed - of every run; this check reports only real halts.
 Checked builds on all inputs; unchecked builds only on inputs whose source-level run has no fault."""
 import time
-from hv import rt, fam_tt, families
+from hv import rt, fam_tt, families, oracle_mc, common
 
 PROP = 'C03'
 FAULTS = {'stack_overflow', 'division_by_zero', 'out_of_bounds', 'nonlocal_preempt'}
@@ -33,6 +33,10 @@ def main(tier, seed):
         for v in vs:
             keep.append(v)
         return keep
+    # the machine model itself: Sphinx.tla's Turing jump against the declarative least fixed point
+    mc, nprog = oracle_mc.run(3 if quick else 4, timeout=1500)
+    if not mc.ok:
+        raise common.Machinery('SphinxOracle.tla model check failed: %s' % (mc.errors + mc.violated)[:3])
     # unchecked + source-level fault = undefined behaviour: not judged
     def kinds_filter(vs, its):
         res = []
@@ -50,4 +54,5 @@ def main(tier, seed):
     return rt.standard(PROP, tier, seed, items,
                        'NoRealHalt in every state of: time-travel templates and enumerated core, random time-travel programs, '
                        'random sequential programs with faults, shipped examples; checked and (where the source run is fault '
-                       'free) unchecked builds', t0, kinds={'real_halt'}, postfilter=kinds_filter, allow_exhausted=True)
+                       'free) unchecked builds', t0, kinds={'real_halt'}, postfilter=kinds_filter, allow_exhausted=True,
+                       extra_cov={'machine_model_check': {'spec': 'SphinxOracle.tla OracleAgree', 'programs': nprog, 'states': mc.distinct}})
